@@ -242,6 +242,30 @@ fn mutants(rng: &mut Rng, par: &Parent) -> Vec<Mutant> {
         }
         v.push(Mutant { class: "jump-undefined:two-jumps-in-one-macro-use".into(), text: l.join("\n") + "\n" });
     }
+    // an undefined jump target among hundreds / thousands of forward references to a label that is defined later
+    if rng.chance(1, 6) {
+        let n = *rng.pick(&[257usize, 300, 1000, 4097, 5000]);
+        let at = code_at(rng);
+        let mut l: Vec<String> = par.lines.clone();
+        let mut block: Vec<String> = vec![format!("{} nosuch_among_many", rng.pick(&["jmp", "je", "loop"]))];
+        for _ in 0..n {
+            block.push("jmp defined_much_later".into());
+        }
+        // the undefined one first, in the middle or last among them
+        let first = block.remove(0);
+        let pos = match rng.below(3) {
+            0 => 0,
+            1 => block.len() / 2,
+            _ => block.len(),
+        };
+        block.insert(pos, first);
+        let at = at.min(l.len());
+        for (k, b) in block.into_iter().enumerate() {
+            l.insert(at + k, b);
+        }
+        l.push("defined_much_later:".into());
+        v.push(Mutant { class: "jump-undefined:among-many-forward-references".into(), text: l.join("\n") + "\n" });
+    }
     // duplicate data label / procedure
     v.push(Mutant { class: "duplicate-data-label".into(), text: insert_line(&par.lines, 0, "bv0: db 9") + "\n" });
     v.push(Mutant { class: "duplicate-data-label".into(), text: insert_line(&par.lines, 0, "wv2: db 9") + "\n" });
